@@ -27,6 +27,8 @@ func init() {
 			{ID: "C15.R8", Floor: 1, Run: resourceTableSizedOnce, Text: "the resource table is sized once: Resources.resources is assigned only by the constructor; reset clears elements in place"},
 			{ID: "C15.R9", Floor: 1, Run: deactivateOnlyOnRetire, Text: "a table is marked inactive only by the retiring method (which also removes it from the target map and pushes its slot to the free list) (Reset keeps zero-target tables active)"},
 			{ID: "C15.R10", Floor: 1, Run: resetNoPreconditionPanics, Text: "Reset cannot fail on state: after its lock test World.Reset reaches no explicit panic other than container invariants (call graph)"},
+			{ID: "C15.R11", Floor: 2, Run: c01r9, Text: "graph edges are installed in symmetric pairs on the node they start from (= C01.R9): the graph survives Reset"},
+			{ID: "C15.R12", Floor: 1, Run: nodeResetCoversTables, Text: "node reset treats every active table: each iteration of the table loop in archNode.Reset resets or retires its table unless the table is known inactive"},
 		},
 	})
 }
